@@ -39,7 +39,7 @@ theorem applyReturnsNil_eq : Generated.applyReturnsNilOnError = true := rfl
 
 /-- every error site of `v5/patch.go`, in source order, with what it wraps -/
 theorem errorSites_eq : Generated.errorSites =
-    [("DecodePatch", ["r:ErrInvalid", "w:ErrInvalid"]),
+        [("DecodePatch", ["r:ErrInvalid", "w:ErrInvalid"]),
      ("add", ["w:ErrMissing", "w:ErrMissing", "w:err"]),
      ("copy", ["w:err", "w:ErrInvalid", "w:ErrMissing", "w:err", "w:ErrMissing", "w:ErrMissing", "w:err", "r:NewAccumulatedCopySizeError", "w:err"]),
      ("doMergePatch", ["r:ErrBadJSONDoc", "r:ErrBadJSONPatch", "r:ErrBadJSONDoc", "r:ErrBadJSONDoc", "r:ErrBadJSONPatch", "r:ErrBadJSONPatch"]),
@@ -77,8 +77,7 @@ these conditions; an edit to any of them (`>` for `>=`, a dropped guard, a new e
 return) breaks this obligation even when no generated input reaches the branch, and the
 check then searches for an input on which the property fails. -/
 theorem conditions_eq : Generated.conditions =
-    [
-     ("ApplyIndentWithOptions", ["if len(doc) == 0", "if !json.Valid(doc)", "if isArray(bytes.TrimLeft(doc, \" \\t\\r\\n\"))", "else", "if err != nil", "for _, op := range p", "switch op.Kind()", "case \"add\"", "case \"remove\"", "case \"replace\"", "case \"move\"", "case \"test\"", "case \"copy\"", "default", "if err != nil", "if err != nil", "if indent == \"\""]),
+        [("ApplyIndentWithOptions", ["if len(doc) == 0", "if !json.Valid(doc)", "if isArray(bytes.TrimLeft(doc, \" \\t\\r\\n\"))", "else", "if err != nil", "for _, op := range p", "switch op.Kind()", "case \"add\"", "case \"remove\"", "case \"replace\"", "case \"move\"", "case \"test\"", "case \"copy\"", "default", "if err != nil", "if err != nil", "if indent == \"\""]),
      ("DecodePatch", ["if !json.Valid(buf)", "if err != nil", "if p == nil", "if err := validatePatch(p); err != nil"]),
      ("Equal", ["if !json.Valid(a) || !json.Valid(b)"]),
      ("Patch.add", ["if err != nil", "if path == \"\"", "if (*val.raw)[0] == '['", "else", "if err != nil", "if options.EnsurePathExistsOnAdd", "if err != nil", "if con == nil", "if err != nil"]),
@@ -89,8 +88,8 @@ theorem conditions_eq : Generated.conditions =
      ("Patch.test", ["if err != nil", "if path == \"\"", "switch sv := (*doc).(type)", "case *partialDoc", "case *partialArray", "if self.equal(op.value(), options)", "if con == nil", "if err != nil && errors.Unwrap(err) != ErrMissing", "if val.isNull() || ov.isNull()", "if val.isNull() && ov.isNull()", "if val.equal(op.value(), options)"]),
      ("TrustMarshalJSON", ["if n.obj == nil", "if err := buf.WriteByte('{'); err != nil", "if n.opts != nil", "for i, k := range n.keys", "if i > 0", "if err := buf.WriteByte(','); err != nil", "if err != nil", "if _, err := buf.Write(key); err != nil", "if err := buf.WriteByte(':'); err != nil", "if err != nil", "if _, err := buf.Write(value); err != nil", "if err := buf.WriteByte('}'); err != nil"]),
      ("deepCopy", ["if src == nil", "if err != nil"]),
-     ("ensurePathExists", ["if len(split) < 2", "for pi, part := range parts", "if pi == len(parts)-1", "if target == nil || ok != nil", "if arrIndex, err = strconv.Atoi(part); err == nil", "if ok && pa != nil && arrIndex >= len(pa.nodes)+1", "for i := len(pa.nodes); i <= arrIndex-1; i++", "if arrIndex, err = strconv.Atoi(parts[pi+1]); err == nil || parts[pi+1] == \"-\"", "if arrIndex < 0", "if !options.SupportNegativeIndices", "if arrIndex < -1", "for i := 0; i < arrIndex; i++", "else", "if err != nil", "else", "if isArray(*target.raw)", "if err != nil", "else", "if err != nil"]),
-     ("findObject", ["if len(split) < 2", "if path == \"\"", "for _, part := range parts", "if next == nil || ok != nil", "if isArray(*next.raw)", "if err != nil", "else", "if err != nil"]),
+     ("ensurePathExists", ["if len(split) < 2 || split[0] != \"\"", "for pi, part := range parts", "if pi == len(parts)-1", "if target == nil || ok != nil", "if arrIndex, err = strconv.Atoi(part); err == nil", "if ok && pa != nil && arrIndex >= len(pa.nodes)+1", "for i := len(pa.nodes); i <= arrIndex-1; i++", "if arrIndex, err = strconv.Atoi(parts[pi+1]); err == nil || parts[pi+1] == \"-\"", "if arrIndex < 0", "if !options.SupportNegativeIndices", "if arrIndex < -1", "for i := 0; i < arrIndex; i++", "else", "if err != nil", "else", "if isArray(*target.raw)", "if err != nil", "else", "if err != nil"]),
+     ("findObject", ["if len(split) < 2", "if path == \"\"", "if split[0] != \"\"", "for _, part := range parts", "if next == nil || ok != nil", "if isArray(*next.raw)", "if err != nil", "else", "if err != nil"]),
      ("isArray", ["for _, c := range buf", "switch c", "case ' '", "case '\\n'", "case '\\t'", "case '['", "default"]),
      ("lazyNode.equal", ["if n.isNull() || o.isNull()", "if n.which == eRaw", "if !n.tryDoc(options) && !n.tryAry()", "if o.which != eRaw", "if nc[0] == '\"' && oc[0] == '\"'", "if err != nil", "if err != nil", "if n.which == eDoc", "if o.which == eRaw", "if !o.tryDoc(options)", "if o.which != eDoc", "if len(n.doc.obj) != len(o.doc.obj)", "for k, v := range n.doc.obj", "if !ok", "if !v.equal(ov, options)", "if o.which != eAry && !o.tryAry()", "if len(n.ary.nodes) != len(o.ary.nodes)", "for idx, val := range n.ary.nodes", "if !val.equal(o.ary.nodes[idx], options)"]),
      ("lazyNode.intoAry", ["if n.which == eAry", "if n.raw == nil", "if err != nil"]),
